@@ -209,8 +209,21 @@ static void compaction_cases(vf_rng *r, uint64_t seed) {
     snprintf(what, sizeof what, "%" PRId64 " cells: sub-tree of depth %d under %016" PRIx64 " + %" PRId64 " others", m, depth, root, extra);
     fault_case(&c, what);
     /* error paths: duplicate, reserved bits */
-    int mode = (int)vf_below(&cr, 3);
-    if (mode == 1 && m >= 1) {
+    int mode = (int)vf_below(&cr, 7);
+    if (mode >= 3 && m >= 1) {
+        /* malformed members: the error is found in the middle of a round, after the scratch arrays exist */
+        int64_t q = (int64_t)vf_below(&cr, (uint64_t)m);
+        const char *w = "";
+        switch (mode) {
+            case 3: cells[q] = vf_set_digit(cells[q], 1 + (int)vf_below(&cr, (uint64_t)res), 7); w = "one with digit 7 inside its resolution"; break;
+            case 4: cells[q] = ref_parent(cells[q], res - 1 - (int)vf_below(&cr, (uint64_t)res)); w = "one replaced by an ancestor (mixed resolutions)"; break;
+            case 5: cells[q] = vf_hostile_index(&cr); w = "one replaced by a hostile index"; break;
+            default: cells[q] = 0; w = "one replaced by H3_NULL"; break;
+        }
+        vf_case("compact %016" PRIx64 " %d", seed, mode);
+        snprintf(what, sizeof what, "%" PRId64 " cells, %s", m, w);
+        fault_case(&c, what);
+    } else if (mode == 1 && m >= 1) {
         cells[m] = cells[vf_below(&cr, (uint64_t)m)];
         c.n = m + 1;
         vf_case("compact %016" PRIx64 " 1", seed);
@@ -299,6 +312,107 @@ static void poly_cases(uint64_t seed) {
     vf_poly_free(&P);
 }
 
+/* malformed indexes into the disk family and the neighbour predicate (no allocation has to fail: the ledger must be empty and
+ * the result must equal the default-allocator library's on every error return) */
+static void hostile_cases(uint64_t seed) {
+    vf_rng cr;
+    vf_rng_seed(&cr, seed);
+    H3Index bad = vf_hostile_index(&cr);
+    int res = ref_is_valid_cell(bad) ? VF_RES(bad) : (int)((bad >> 52) & 15);
+    H3Index good = vf_rand_cell(&cr, res);
+    int k = (int)vf_below(&cr, 7) - 2; /* -2..4 */
+    char what[128];
+    cur_sig = "";
+    {
+        call_t c = {K_DISK, NULL, k, bad, 0, NULL, 0, 0, 0};
+        vf_case("hostile %016" PRIx64, seed);
+        snprintf(what, sizeof what, "hostile origin %016" PRIx64 " k=%d (gridDisk)", bad, k);
+        fault_case(&c, what);
+        c.kind = K_DISKDIST;
+        snprintf(what, sizeof what, "hostile origin %016" PRIx64 " k=%d (gridDiskDistances)", bad, k);
+        fault_case(&c, what);
+    }
+    H3Index pairs[4][2] = {{bad, good}, {good, bad}, {bad, bad}, {bad, vf_hostile_index(&cr)}};
+    for (int i = 0; i < 4; i++) {
+        call_t c = {K_NEIGH, NULL, 0, pairs[i][0], pairs[i][1], NULL, 0, 0, 0};
+        snprintf(what, sizeof what, "hostile pair %016" PRIx64 " %016" PRIx64, pairs[i][0], pairs[i][1]);
+        fault_case(&c, what);
+    }
+    /* a valid origin beside a pentagon with a malformed *neighbourhood* cannot exist; but a valid cell of another resolution can */
+    if (res > 0) {
+        call_t c = {K_NEIGH, NULL, 0, good, ref_parent(good, res - 1), NULL, 0, 0, 0};
+        snprintf(what, sizeof what, "cell and its parent %016" PRIx64, good);
+        fault_case(&c, what);
+    }
+    vf_add("hostile.cases", 1);
+}
+/* polygons that make the fills fail: resolution out of range, non-finite or huge vertices, degenerate loops and holes */
+static void bad_poly_cases(uint64_t seed) {
+    vf_rng cr;
+    vf_rng_seed(&cr, seed);
+    int res = (int)vf_below(&cr, 8);
+    H3Index centre = vf_rand_cell(&cr, res);
+    LatLng cg;
+    vf_cell cc;
+    if (cellToLatLng(centre, &cg) || vf_cell_load(centre, &cc)) return;
+    if (fabs(cg.lat) > 1.2) return;
+    double w = (double)cc.width * (1 + 3 * vf_unit(&cr));
+    LatLng v[6], hv[4];
+    int nv = 3 + (int)vf_below(&cr, 3);
+    for (int i = 0; i < nv; i++) {
+        double a = 2 * M_PI * i / nv;
+        v[i].lat = cg.lat + w * sin(a);
+        v[i].lng = cg.lng + w * cos(a);
+    }
+    for (int i = 0; i < 4; i++) {
+        double a = -2 * M_PI * i / 4;
+        hv[i].lat = cg.lat + 0.3 * w * sin(a);
+        hv[i].lng = cg.lng + 0.3 * w * cos(a);
+    }
+    GeoLoop hole = {4, hv};
+    GeoPolygon gp = {{nv, v}, (int)vf_below(&cr, 2), &hole};
+    int variant = (int)vf_below(&cr, 8);
+    int useres = res;
+    const char *vn = "";
+    switch (variant) {
+        case 0: useres = vf_below(&cr, 2) ? -1 - (int)vf_below(&cr, 3) : 16 + (int)vf_below(&cr, 3); vn = "resolution out of range"; break;
+        case 1: v[vf_below(&cr, (uint64_t)nv)].lat = NAN; vn = "NaN latitude"; break;
+        case 2: v[vf_below(&cr, (uint64_t)nv)].lng = vf_below(&cr, 2) ? INFINITY : -INFINITY; vn = "infinite longitude"; break;
+        case 3: gp.numHoles = 1; hv[vf_below(&cr, 4)].lat = vf_below(&cr, 2) ? NAN : INFINITY; vn = "non-finite hole vertex"; break;
+        case 4: gp.geoloop.numVerts = (int)vf_below(&cr, 3); vn = "outer loop of 0-2 vertices"; break;
+        case 5: gp.numHoles = 1; hole.numVerts = (int)vf_below(&cr, 3); vn = "hole of 0-2 vertices"; break;
+        case 6: v[vf_below(&cr, (uint64_t)nv)].lng = 1e300; vn = "huge longitude"; break;
+        default: for (int i = 1; i < nv; i++) v[i] = v[0]; vn = "all vertices equal"; break;
+    }
+    char what[160];
+    cur_sig = "";
+    int64_t sz = 0;
+    vfa_reset();
+    H3Error se = maxPolygonToCellsSize(&gp, useres, 0, &sz);
+    /* the legacy fill has no capacity argument: it is only called with the exact size its own size function announces */
+    int judged_fill = !se && sz > 0 && sz <= 200000;
+    if (judged_fill) {
+        call_t c = {K_POLY, NULL, 0, 0, 0, &gp, useres, 0, sz};
+        vf_case("badpoly %016" PRIx64, seed);
+        snprintf(what, sizeof what, "legacy fill, %s, res %d", vn, useres);
+        fault_case(&c, what);
+    }
+    for (uint32_t mode = 0; mode < 4; mode++) {
+        call_t cm = {K_MAXX, NULL, 0, 0, 0, &gp, useres, mode, 0};
+        vf_case("badpoly %016" PRIx64, seed);
+        snprintf(what, sizeof what, "maxPolygonToCellsSizeExperimental, %s, res %d, mode %u", vn, useres, mode);
+        fault_case(&cm, what);
+        int64_t xs = 0;
+        vfa_reset();
+        H3Error xe = maxPolygonToCellsSizeExperimental(&gp, useres, mode, &xs);
+        if (xe || xs <= 0 || xs > 200000) xs = 1;
+        call_t cx = {K_POLYX, NULL, xs, 0, 0, &gp, useres, mode, xs};
+        snprintf(what, sizeof what, "polygonToCellsExperimental, %s, res %d, mode %u", vn, useres, mode);
+        fault_case(&cx, what);
+    }
+    vf_add("badpoly.cases", 1);
+}
+
 /* F1b witness: a square around the first res-2 pentagon, legacy polygonToCells (nested gridDisk allocations) */
 static void witness_f1b(void) {
     H3Index pent = vf_make_cell(2, REF_PENT_BC[0], (int[15]){0});
@@ -370,8 +484,14 @@ static void run(void) {
         if (m > 0) neigh_case(h, nb[vf_below(&r, (uint64_t)m)]);
         neigh_case(h, vf_rand_cell(&r, VF_RES(h)));
     }
+    /* error-path inputs (statement: "every block ... is freed ... on every error path"): malformed origins and pairs reach the
+     * fallback allocation of the disk family and fail inside it; degenerate k */
+    int nh = VF_T(400, 6000);
+    for (int i = 0; i < nh; i++) hostile_cases(vf_u64(&r));
     int np = VF_T(120, 1500);
     for (int i = 0; i < np; i++) poly_cases(vf_u64(&r));
+    int nb = VF_T(60, 800);
+    for (int i = 0; i < nb; i++) bad_poly_cases(vf_u64(&r));
     vf_add("calls", n_calls);
     vf_add("faulted_runs", n_faulted);
     vf_add("calls.no_allocation", n_trivial);
@@ -390,6 +510,10 @@ static void replay(const char *spec) {
         neigh_case(a, b);
     else if (sscanf(spec, "poly %" SCNx64, &a) == 1)
         poly_cases(a);
+    else if (sscanf(spec, "hostile %" SCNx64, &a) == 1)
+        hostile_cases(a);
+    else if (sscanf(spec, "badpoly %" SCNx64, &a) == 1)
+        bad_poly_cases(a);
     else if (!strncmp(spec, "witness-f1b", 11))
         witness_f1b();
     else
